@@ -36,13 +36,16 @@ import predicate.named_predicate as NP_MOD
 import predicate.predicate as PP
 import predicate.truth_table as TT_MOD
 from predicate.named_predicate import NamedPredicate
-from predicate.standard_predicates import all_p, fn_p, ge_p, is_int_p, is_none_p
+from predicate.standard_predicates import all_p, any_p, comp_p, fn_p, ge_p, is_int_p, is_none_p
 from predicate.truth_table import get_named_predicates, truth_table
 
 NAMES = ["p", "q", "r", "s", "pq", "B", "a1", "t", "Z", "qa", "a", "b"]
 MAP_DUP = [0, 1, 0, 2]        # objects 0 and 2 are different objects, both named "p"
 MAP_UNSORTED = [1, 0, 5, 4]   # "q", "p", "B", "pq": declaration order is not the sorted order
-FOREIGN = [lambda: ge_p(1), lambda: all_p(is_int_p), lambda: fn_p(lambda x: True), lambda: is_none_p]
+FOREIGN = [lambda: ge_p(1), lambda: all_p(is_int_p), lambda: fn_p(lambda x: True), lambda: is_none_p,
+           # foreign nodes that themselves CONTAIN variables / connectives (fields named like the connectives' own)
+           lambda: comp_p(str, NamedPredicate(name="p")), lambda: all_p(NamedPredicate(name="q")),
+           lambda: comp_p(bool, NamedPredicate(name="p") ^ NamedPredicate(name="q")), lambda: any_p(~NamedPredicate(name="p"))]
 
 # ------------------------------------------------------------------ shapes
 # ["var", i] | ["true"] | ["false"] | ["other", k] | ["not", a] | ["and"|"or"|"xor", a, b]
@@ -113,7 +116,7 @@ def show(shape, names):
     if k in ("true", "false"):
         return k
     if k == "other":
-        return ["ge_p(1)", "all_p(is_int_p)", "fn_p(<lambda>)", "is_none_p"][shape[1]]
+        return ["ge_p(1)", "all_p(is_int_p)", "fn_p(<lambda>)", "is_none_p", "comp_p(str, p)", "all_p(q)", "comp_p(bool, p ^ q)", "any_p(~p)"][shape[1]]
     if k == "not":
         return f"~{show(shape[1], names)}"
     return f"({show(shape[1], names)} { {'and': '&', 'or': '|', 'xor': '^'}[k] } {show(shape[2], names)})"
